@@ -1,0 +1,73 @@
+//! Verification hooks (only compiled with `--cfg libp2p_verif`): thin `pub` wrappers around
+//! crate-private items so that the verification harness can drive the production code.
+//!
+//! * [`CopyFuture`]: wrapper around the crate-private `copy_future::CopyFuture` (under this
+//!   cfg its duration timer is `libp2p_swarm::verif_delay::Delay`, i.e. runs on the harness'
+//!   virtual clock).
+//! * relay handler event / command types and the inbound HOP request parser, so that
+//!   `relay::Behaviour` can be driven standalone through `NetworkBehaviour`.
+
+use std::{
+    future::Future,
+    io,
+    pin::Pin,
+    task::{Context, Poll},
+    time::Duration,
+};
+
+use either::Either;
+use futures::io::{AsyncRead, AsyncWrite};
+use libp2p_swarm::Stream;
+
+pub use crate::{
+    behaviour::handler::{Event as HandlerEvent, In as HandlerIn},
+    protocol::inbound_hop::{CircuitReq, ReservationReq},
+};
+
+/// `copy_future::CopyFuture`, the future that relays bytes between the two streams of a circuit.
+pub struct CopyFuture<S, D>(crate::copy_future::CopyFuture<S, D>);
+
+impl<S: AsyncRead, D: AsyncRead> CopyFuture<S, D> {
+    pub fn new(src: S, dst: D, max_circuit_duration: Duration, max_circuit_bytes: u64) -> Self {
+        CopyFuture(crate::copy_future::CopyFuture::new(
+            src,
+            dst,
+            max_circuit_duration,
+            max_circuit_bytes,
+        ))
+    }
+}
+
+impl<S, D> Future for CopyFuture<S, D>
+where
+    S: AsyncRead + AsyncWrite + Unpin,
+    D: AsyncRead + AsyncWrite + Unpin,
+{
+    type Output = io::Result<()>;
+
+    fn poll(mut self: Pin<&mut Self>, cx: &mut Context<'_>) -> Poll<Self::Output> {
+        Pin::new(&mut self.0).poll(cx)
+    }
+}
+
+/// `protocol::inbound_hop::handle_inbound_request`: reads one HOP request from `io`.
+pub async fn handle_inbound_request(
+    io: Stream,
+    reservation_duration: Duration,
+    max_circuit_duration: Duration,
+    max_circuit_bytes: u64,
+) -> Result<Either<ReservationReq, CircuitReq>, crate::inbound::hop::Error> {
+    crate::protocol::inbound_hop::handle_inbound_request(
+        io,
+        reservation_duration,
+        max_circuit_duration,
+        max_circuit_bytes,
+    )
+    .await
+}
+
+/// `outbound_stop::Error::to_status` (the status the relay reports to the source when the
+/// STOP negotiation with the destination failed).
+pub fn stop_error_status(error: &crate::outbound::stop::Error) -> crate::proto::Status {
+    error.to_status()
+}
